@@ -100,8 +100,16 @@ class BlockEval:
         return self.folder.expr(node, env)
 
     # ---- forking -----------------------------------------------------------------------
+    def _eff(self, eff, kind, text):
+        """Record a statement that could not be interpreted (its effect is unknown)."""
+        log = self.__dict__.setdefault("effect_log", [])
+        if len(log) < 10000:
+            log.append((kind, text))
+        return eff + [(kind, text)]
+
     def _fork(self, state):
         env, assume, eff = state
+        self.forks = getattr(self, "forks", 0) + 1
         memo = {}
         modconst = getattr(self.folder, "mods", {})
         shared = set()
@@ -255,7 +263,7 @@ class BlockEval:
                     for n in ast.walk(t):
                         if isinstance(n, ast.Name):
                             env[n.id] = TOP
-                    eff = eff + [("opaque-store", ast.unparse(st)[:80])]
+                    eff = self._eff(eff, "opaque-store", ast.unparse(st)[:80])
                 except (AnalysisError, FoldedRaise):
                     raise
                 except Exception as e:
@@ -282,7 +290,7 @@ class BlockEval:
                 for n in ast.walk(st.target):
                     if isinstance(n, ast.Name):
                         env[n.id] = TOP
-                eff = eff + [("opaque-store", ast.unparse(st)[:80])]
+                eff = self._eff(eff, "opaque-store", ast.unparse(st)[:80])
             except (AnalysisError, FoldedRaise):
                 raise
             except Exception as e:
@@ -332,7 +340,7 @@ class BlockEval:
                 self._fold(st.value, env)
                 return [state]
             except Unknown:
-                return [(env, assume, eff + [("call", ast.unparse(st.value)[:100])])]
+                return [(env, assume, self._eff(eff, "call", ast.unparse(st.value)[:100]))]
             except (AnalysisError, FoldedRaise):
                 raise
             except Exception as e:
@@ -411,7 +419,7 @@ class BlockEval:
                         keys.append(key)
                 except Unknown:
                     entered = TOP
-                    eff = eff + [("with", ast.unparse(item.context_expr)[:80])]
+                    eff = self._eff(eff, "with", ast.unparse(item.context_expr)[:80])
                 if item.optional_vars is not None:
                     try:
                         self.folder.assign(item.optional_vars, entered, env)
